@@ -71,7 +71,7 @@ def run_job(job):
             else:
                 opts.setdefault("time_budget", float(os.environ.get("VERIF_JOB_BUDGET", "0")) or
                                 (300.0 if os.environ.get("VERIF_TIER_ACTIVE", "quick") == "quick" else 2400.0))
-                res = sx.explore(fn, job.params, **opts)
+                res = sx.explore(_isolated(fn), job.params, **opts)
         finally:
             sys.setprofile(None)
             if undo is not None:
@@ -94,6 +94,25 @@ def run_job(job):
         print("  job %-40s %7.1fs %s" % (job.name, out["wall"], "ERROR" if "error" in out else
               "paths=%s %s" % (out.get("paths"), out.get("verdicts"))), file=sys.stderr, flush=True)
     return out
+
+
+def _isolated(fn):
+    """every path starts from the module state the job started with: shared containers / singleton attributes of the
+    a5 package (including ones a changed tree adds, e.g. memo dicts) are snapshotted before and restored after each
+    execution of the harness, so nothing leaks from one explored path into the next."""
+    from symx import shared
+
+    def run(c, **kw):
+        snap = shared.snapshot_state()
+        try:
+            return fn(c, **kw)
+        finally:
+            try:
+                shared.restore_state(snap)
+            except Exception:
+                pass
+    run.__name__ = getattr(fn, "__name__", "harness")
+    return run
 
 
 def _jsonable(x):
